@@ -1,5 +1,145 @@
+//! Scenario `pipe`: the shared case language (harness/seq/src/core.rs) executed on the shuttle-instrumented
+//! copy, with sources / schedulers / timers on their own threads and virtual time.
+//!   (pipe STEP...)  — the steps of the sequential case language plus
+//!     (settle MS)            the main thread sleeps MS virtual milliseconds
+//!     (unsub-after S MS)     a thread that sleeps MS, then unsubscribes user S (stamped u<S>! / u<S>.)
+//!     (drive NAME (GAP ACT)...)  a thread that drives hot subject NAME: ACT = (n v) | (e k) | c, stamped h<NAME>!.. / h<NAME>...
+//! Every record is rendered as `<tid>:<record>@<virtual-time>`; the final observation (S= L= O=) follows.
+use crate::core::*;
 use crate::sexp::Sexp;
-use crate::Scenario;
-pub fn build(_a: &[Sexp]) -> Option<Box<dyn Scenario>> {
-  None
+use crate::value::reset_live;
+use crate::{Outcome, Scenario};
+use another_rxrust::verif_facade as facade;
+use another_rxrust::verif_std::thread as vthread;
+use std::sync::{Arc, Mutex};
+use std::time::Duration;
+
+pub struct Pipe {
+  steps: Vec<Sexp>,
+  last: Arc<Mutex<String>>,
+}
+
+pub fn build(a: &[Sexp]) -> Option<Box<dyn Scenario>> {
+  Some(Box::new(Pipe { steps: a.to_vec(), last: Arc::new(Mutex::new(String::new())) }))
+}
+
+fn conc_step(sh: &Shared, e: &Sexp) -> Option<()> {
+  let (h, a) = e.call()?;
+  match h {
+    "settle" => {
+      vthread::sleep(Duration::from_millis(a.first()?.nat()? as u64));
+      Some(())
+    }
+    "unsub-after" => {
+      let s = a.first()?.nat()?;
+      let ms = a.get(1)?.nat()? as u64;
+      let sh = sh.clone();
+      vthread::spawn(move || {
+        if ms > 0 {
+          vthread::sleep(Duration::from_millis(ms));
+        }
+        sh.rec(format!("u{}!", s));
+        user_unsub(&sh, s);
+        sh.rec(format!("u{}.", s));
+      });
+      Some(())
+    }
+    "drive" => {
+      let name = a.first()?.atom()?.to_string();
+      let mut acts = Vec::new();
+      for it in a[1..].iter() {
+        let l = it.list()?;
+        let gap = l.first()?.nat()? as u64;
+        let ev = l.get(1)?;
+        let (text, sx) = if ev.atom() == Some("c") {
+          ("c".to_string(), Sexp::List(vec![Sexp::Atom("hcomplete".into()), Sexp::Atom(name.clone())]))
+        } else {
+          let (k, x) = ev.call()?;
+          match k {
+            "n" => (format!("n{}", x.first()?.atom()?), Sexp::List(vec![Sexp::Atom("hnext".into()), Sexp::Atom(name.clone()), x.first()?.clone()])),
+            "e" => (format!("e{}", x.first()?.atom()?), Sexp::List(vec![Sexp::Atom("herror".into()), Sexp::Atom(name.clone()), x.first()?.clone()])),
+            _ => return None,
+          }
+        };
+        acts.push((gap, text, subject_action(sh, &sx)?));
+      }
+      let sh = sh.clone();
+      vthread::spawn(move || {
+        for (gap, text, act) in acts {
+          if gap > 0 {
+            vthread::sleep(Duration::from_millis(gap));
+          }
+          sh.rec(format!("h{}!{}", name, text));
+          act(0);
+          sh.rec(format!("h{}.{}", name, text));
+        }
+      });
+      Some(())
+    }
+    _ => step(sh, e),
+  }
+}
+
+impl Scenario for Pipe {
+  fn timed(&self) -> bool {
+    true
+  }
+  fn body(&self) -> Arc<dyn Fn() + Send + Sync> {
+    let steps = self.steps.clone();
+    let last = self.last.clone();
+    Arc::new(move || {
+      reset_live();
+      let sh = Shared::new();
+      sh.lock().hook = Some(Arc::new(|s: &str| {
+        facade::log("h", 0, "", format!("{}@{}", s, facade::now()));
+      }));
+      let mut ok = true;
+      for st in steps.iter() {
+        if conc_step(&sh, st).is_none() {
+          facade::log("h", 0, "", format!("PARSE-ERROR {}", st));
+          ok = false;
+          break;
+        }
+      }
+      if ok {
+        // quiescence: let every timer and worker run out (virtual time), then look at the end state
+        vthread::sleep(Duration::from_millis(3_000));
+        // end whatever is still subscribed (a source that never terminates), then let the workers wind down
+        facade::log("h", 0, "", format!("ENDALL@{}", facade::now()));
+        let n = sh.lock().users.len();
+        for s in 0..n {
+          // only subscriptions that are still live: one that already ended must have cleaned up by itself
+          let live = sh.lock().users.get(s).and_then(|u| u.sub.clone()).map(|x| x.is_subscribed()).unwrap_or(false);
+          if live {
+            user_unsub(&sh, s);
+          }
+        }
+        vthread::sleep(Duration::from_millis(500));
+        facade::set_logging(false);
+        let fin = observe(&sh, usize::MAX, "ok", false);
+        facade::set_logging(true);
+        facade::log("h", 0, "", format!("FINAL {}", fin.trim()));
+      }
+      *last.lock().unwrap_or_else(|e| e.into_inner()) = String::new();
+      // drop the handles while logging is off (destructors take locks)
+      facade::set_logging(false);
+      drop(sh);
+      facade::set_logging(true);
+    })
+  }
+
+  fn render(&self, out: &Outcome) -> String {
+    let mut recs: Vec<String> = Vec::new();
+    let mut exits = 0usize;
+    let mut spawns = 0usize;
+    for e in out.events.iter() {
+      match e.kind {
+        "h" => recs.push(format!("{}:{}", e.tid, e.payload)),
+        "spawn" => spawns += 1,
+        "exit" => exits += 1,
+        _ => {}
+      }
+    }
+    format!("threads={}/{} ; {}", exits, spawns, recs.join(" "))
+  }
 }
